@@ -82,7 +82,7 @@ func (s *BarGraph) WriteBar(idx int, key string, vals ...int64) {
 	{
 		var max int64
 		if s.Stacked {
-			max = sumi64(vals...)
+			max = sumPositive(vals...)
 		} else {
 			max = maxi64(vals...)
 		}
@@ -114,6 +114,16 @@ func maxi64(vals ...int64) (ret int64) {
 func sumi64(vals ...int64) (ret int64) {
 	for _, v := range vals {
 		ret += v
+	}
+	return
+}
+
+// sumPositive is the length a stacked bar is scaled against: negative values draw nothing
+func sumPositive(vals ...int64) (ret int64) {
+	for _, v := range vals {
+		if v > 0 {
+			ret += v
+		}
 	}
 	return
 }
@@ -164,8 +174,8 @@ func (s *BarGraph) writeBarStacked(idx int, key string, vals ...int64) {
 		total += val
 	}
 
-	if total > s.maxLineVal {
-		s.maxLineVal = total
+	if drawn := sumPositive(vals...); drawn > s.maxLineVal {
+		s.maxLineVal = drawn
 	}
 
 	var sb strings.Builder
